@@ -84,7 +84,8 @@ static inline int cur_char(char_stream_t cs) {
 }
 
 static inline int next_char(char_stream_t cs) {
-  assert(cs->a[cs->i] != '\n');
+  /* a newline is just another unexpected character; the parser reports
+     it as a malformed list instead of aborting the process */
   cs->i++;
   return cur_char(cs);
 }
